@@ -101,6 +101,8 @@ fn owners_of_oracle_panic(msg: &str) -> &'static [&'static str] {
         &["C05", "C08"]
     } else if msg.contains("shape walk") {
         &["C15", "C20"]
+    } else if msg.contains("TrieView::into_iter") {
+        &["C03", "C11"]
     } else if msg.contains("serde") {
         &["C19"]
     } else {
@@ -312,6 +314,23 @@ impl Hist {
             });
             self.canonical = keep;
             ev.count("injected_panics/consistency_checks", 1);
+        }
+        if self.f.panic && self.step_no % 4 == 0 {
+            // Debug formatting and default iterators are public operations too
+            let q = self.g.hkey(&self.m);
+            let slot = self.slot;
+            let cap = 400 * (post_shape.len() + 4);
+            let w = &mut self.w;
+            match guarded(|| w.debug_fmt(slot, q)) {
+                Ok(n) => {
+                    ev.count("debug_fmt/calls", 1);
+                    if n == 0 || n > cap {
+                        self.viol(ev, "debug-fmt/length", format!("Debug output has {} bytes for {} nodes", n, post_shape.len()));
+                        return Flow::Stop;
+                    }
+                }
+                Err(p) => return self.on_panic(ev, &p, "debug-fmt", true),
+            }
         }
         run!(self.f.shape, "shape", self.check_shape(ev, op, &pre, &pre_shape, &post_shape));
         run!(self.f.arena, "arena", self.check_arena(ev, op, &post_shape));
